@@ -130,6 +130,67 @@ theorem kind_examples (opt : DiffOpt) (k : Kind) (base probe : Arr) (hp : probe.
             restoration := none, model := none, restorationFirst := true } k (some base) [] probe).kind = k := by
   simp [call, resultKind, stageList, cleaningFilter, runStages, Stage.pure, StageFn.eval, Arr.ndim, diff, hp]
 
+/-- **No wrap-around for integer images** (`uint8`: bits = 8, `uint16`: bits = 16). The code promotes both images
+with `img_as(float)` (value / (2^bits − 1)) before `_subtract_background`; then, for every difference option and all
+pixel values of the type, the difference is exactly the (clipped / absolute / plain) *integer* difference divided by
+2^bits − 1 — it lies in [−1, 1], and in [0, 1] for the clipped and absolute options. (Without promotion numpy would
+compute `(p − b) mod 2^bits`: `wrapSub`.) -/
+theorem diff_no_wrap (bits : Nat) (hb : 0 < bits) (base probe : List Nat)
+    (hbase : ∀ b ∈ base, b < 2 ^ bits) (hprobe : ∀ p ∈ probe, p < 2 ^ bits) (o : DiffOpt) :
+    diffPromoted bits o base probe =
+      List.zipWith (fun (p b : Nat) => o.val (p : Rat) (b : Rat) / ((2 ^ bits - 1 : Nat) : Rat)) probe base ∧
+    ∀ v ∈ diffPromoted bits o base probe, -1 ≤ v ∧ v ≤ 1 ∧ (o ≠ .plain → 0 ≤ v) := by
+  constructor
+  · unfold diffPromoted
+    induction probe generalizing base with
+    | nil => simp
+    | cons p ps ih =>
+      cases base with
+      | nil => simp
+      | cons b bs =>
+        simp only [List.zipWith_cons_cons]
+        rw [(val_promote bits hb p b (hprobe p (by simp)) (hbase b (by simp)) o).1,
+          ih bs (fun x hx => hbase x (by simp [hx])) (fun x hx => hprobe x (by simp [hx]))]
+  · intro v hv
+    obtain ⟨p, hp, b, hbm, rfl⟩ := mem_zipWith' _ _ _ _ hv
+    exact (val_promote bits hb p b (hprobe p hp) (hbase b hbm) o).2
+
+/-- a wrapped difference looks nothing like the promoted one: 3 − 5 on uint8 is 254, the promoted positive part is 0 -/
+example : wrapSub 8 3 5 = 254 ∧ DiffOpt.positive.val (promote 8 3) (promote 8 5) = 0 ∧
+    DiffOpt.plain.val (promote 8 3) (promote 8 5) = -2 / 255 := by decide +kernel
+
+/-- **Cleaning-filter accumulation**: with extra baselines `e :: extras` the threshold is the running maximum,
+started at 0, of their reduced differences with the baseline; every entry is non-negative, dominates the
+corresponding entry of every extra baseline's signal, and is attained (0 or the entry of one of them). -/
+theorem cleaning_filter_is_running_max (c : Config) (base e : Arr) (extras : List Arr) :
+    let signals := (e :: extras).map fun b => (applyOpt c.reduction (diff c.opt base b)).px.map (·.headD 0)
+    cleaningFilter c base (e :: extras) = some (accumulate base.px.length signals) ∧
+    ∀ (i : Nat) (t : Rat), (accumulate base.px.length signals)[i]? = some t →
+      0 ≤ t ∧ (∀ s ∈ signals, ∀ x : Rat, s[i]? = some x → x ≤ t) ∧ (t = 0 ∨ ∃ s ∈ signals, s[i]? = some t) := by
+  intro signals
+  refine ⟨cleaningFilter_eq_accumulate c base e extras, fun i t ht => ⟨accumulate_nonneg _ _ i t ht,
+    fun s hs x hx => accumulate_ge _ _ s hs i t x ht hx, ?_⟩⟩
+  rcases foldl_stepMax_attained signals _ i t ht with h | h
+  · left
+    rw [List.getElem?_replicate] at h
+    split at h
+    · cases h; rfl
+    · contradiction
+  · exact Or.inr h
+
+/-- hence every extra baseline is itself cleaned to zero: wherever the threshold and its reduced signal are defined,
+`clip(signal − threshold, 0)` vanishes (the structural noise the filter was learnt from is removed). -/
+theorem extra_baseline_cleaned_zero (c : Config) (base e : Arr) (extras : List Arr) (b : Arr) (hb : b ∈ e :: extras)
+    (i : Nat) (t x : Rat)
+    (ht : (accumulate base.px.length ((e :: extras).map fun b => (applyOpt c.reduction (diff c.opt base b)).px.map (·.headD 0)))[i]? = some t)
+    (hx : ((applyOpt c.reduction (diff c.opt base b)).px.map (·.headD 0))[i]? = some x) :
+    Pipeline.posPart (x - t) = 0 := by
+  have hle := accumulate_ge _ _ _ (List.mem_map.mpr ⟨b, hb, rfl⟩) i t x ht hx
+  unfold Pipeline.posPart
+  split_ifs with h
+  · linarith
+  · rfl
+
 /-! ### non-vacuity -/
 
 def rgb : Arr := { scalar := false, px := [[1, 2, 3], [0, 4, 1]] }
